@@ -36,7 +36,7 @@ from ..model import crcref, xxhashref, seahashref
 ID = "C27"
 LEVEL = "exploration"
 BUDGET = {"quick": 20, "thorough": 240}
-MEMCHECK = {"requests": 120, "stride": 20}    # thorough: valgrind memcheck over a sample of the workload
+MEMCHECK = {"requests": 300, "stride": 10}    # thorough: valgrind memcheck over a sample of the workload
 FLOOR = {"quick": 400, "thorough": 700}
 RULE = ("byte strings of length 0-1024 (plus a few up to 2100) concentrated on the block/padding "
         "boundaries of every hash (55/56/64, 111/112/128, SHA-3 rates 72/104/136/144, XXH 3/4/8/9/16/17/"
